@@ -259,12 +259,38 @@ def run_chain(pt, kind, top, rng, n_calls, query_levels=None):
         REC.crashed("C18.call_raised", e)
 
 
+def run_interleaved(pt, rng, n_ops):
+    """several polytope objects alive in one process, getters and subdivisions interleaved at random (nothing may be shared between objects)"""
+    objs = []
+    for kind in ("ico", "cube3D", "cube4D", "cube3D", "ico"):
+        cls = {"ico": pt.IcosahedronPolytope, "cube3D": pt.Cube3DPolytope, "cube4D": pt.Cube4DPolytope}[kind]
+        REC.begin_case({"polytope": kind, "level": 0, "history": "interleaved objects"}, cls="interleaved objects")
+        objs.append([kind, cls(), 0])
+    hist = []
+    for _ in range(n_ops):
+        k = rng.randrange(len(objs))
+        kind, p, level = objs[k]
+        REC.begin_case({"polytope": kind, "level": level, "history": "interleaved objects", "ops_so_far": hist[-12:]}, cls="interleaved objects")
+        try:
+            if rng.random() < 0.2 and level < (2 if kind != "cube4D" else 1):
+                p.divide_edges()
+                objs[k][2] += 1
+                hist.append([k, "divide"])
+            else:
+                hist.append([k] + getter_history(p, kind, rng, 1)[0])
+        except Exception as e:
+            REC.crashed("C18.call_raised", e)
+            return
+    REC.nontrivial_case(("interleaved", hist))
+
+
 def shards(tier, seed):
     out = [{"kind": "ico", "top": 4}, {"kind": "cube3D", "top": 4}, {"kind": "cube4D", "top": 2},
            {"kind": "ico", "top": 3}, {"kind": "cube3D", "top": 3}, {"kind": "cube4D", "top": 1}]
     out += [{"kind": "ico", "top": 3, "query_levels": [0, 2]}, {"kind": "ico", "top": 3, "query_levels": [1, 3]},
             {"kind": "cube3D", "top": 3, "query_levels": [0, 2, 3]}, {"kind": "cube3D", "top": 2, "query_levels": [2]},
             {"kind": "cube4D", "top": 2, "query_levels": [0, 2]}, {"kind": "cube4D", "top": 2, "query_levels": [2]}]
+    out += [{"kind": "interleaved", "top": 0, "ops": 60 if tier == "quick" else 400} for _ in range(2 if tier == "quick" else 6)]
     for i, s in enumerate(out):
         s["rseed"] = seed * 100 + i
         s["calls"] = 8 if tier == "quick" else 60
@@ -285,6 +311,8 @@ def run_shard(spec):
         from vlib.props import c07
         c07.install()
         return repo_tests.run(spec["modules"])
+    if spec["kind"] == "interleaved":
+        return run_interleaved(pt, random.Random(spec["rseed"]), spec["ops"])
     run_chain(pt, spec["kind"], spec["top"], random.Random(spec["rseed"]), spec["calls"], spec.get("query_levels"))
 
 
